@@ -28,6 +28,12 @@ func c17Letters(w *harness.World) []Letter {
 		Letter{"SetColl(y,rev)", func(w *harness.World) { w.SetCollection("y", "rev") }},
 		Letter{"Flush", func(w *harness.World) { w.Flush() }},
 		Letter{"Reopen", func(w *harness.World) { w.Reopen(true); ensureX(w) }},
+		Letter{"Revert", func(w *harness.World) { w.Revert(); ensureX(w) }},
+		Letter{"Min(v)", func(w *harness.World) {
+			if _, ok := w.Colls["x"]; ok {
+				w.MinMax("x", false, true)
+			}
+		}},
 		Letter{"CopyTo(2)", func(w *harness.World) { w.CopyTo(-1, 2) }})
 	if _, ok := w.Colls["y"]; ok {
 		ls = append(ls, Letter{"Set(y.a)", func(w *harness.World) { w.SetItem("y", kA, 1, bs("ya")) }},
@@ -125,7 +131,7 @@ func c17Profiles(tier string) []Profile {
 		singles = append(singles, 1<<b)
 	}
 	return []Profile{
-		{Name: "subsets", Exec: c17Exec(dAll, all), ShardLevel: 1, Rule: fmt.Sprintf("all 512 subsets of {BeforeItemWrite, AfterItemRead, ItemAlloc, ItemAddRef, ItemDecRef, ItemValLength, ItemValWrite (two chunks), ItemValRead (two chunks), KeyCompareForCollection} x every history of length <= %d over Set/Delete/GetItem/visit/Evict/SetCollection(y, reverse)/Flush/Reopen/CopyTo; oracles of C01 (model), C02 (copy re-opens to the durable state), C09 (file monitor), C14 (independent decoder) all on, plus: the observation log equals that of the same history run without callbacks", dAll)},
+		{Name: "subsets", Exec: c17Exec(dAll, all), ShardLevel: 1, Rule: fmt.Sprintf("all 512 subsets of {BeforeItemWrite, AfterItemRead, ItemAlloc, ItemAddRef, ItemDecRef, ItemValLength, ItemValWrite (two chunks), ItemValRead (two chunks), KeyCompareForCollection} x every history of length <= %d over Set/Delete/GetItem/MinItem/visit/Evict/SetCollection(y, reverse)/Flush/Reopen/FlushRevert/CopyTo; whenever ItemAlloc, ItemAddRef and ItemDecRef are all installed they implement a recycling pool (an item whose count reaches zero is scrubbed); oracles of C01 (model), C02 (copy re-opens to the durable state), C09 (file monitor), C14 (independent decoder) all on, plus: the observation log equals that of the same history run without callbacks", dAll)},
 		{Name: "singles", Exec: c17Exec(dSingle, singles), ShardLevel: 2, Rule: fmt.Sprintf("the empty set, the 9 singletons and the full set x every history of length <= %d, same oracles", dSingle)},
 	}
 }
